@@ -187,6 +187,9 @@ func init() {
 			}
 			return v
 		},
+		verifrtPath + ".Concretize": func(m *Machine, fr *frame, a []value) value {
+			return m.concretizeInt(a[0], intInfo{64, true})
+		},
 		verifrtPath + ".Assume": func(m *Machine, fr *frame, a []value) value { m.assume(a[0]); return nil },
 		verifrtPath + ".Assert": func(m *Machine, fr *frame, a []value) value {
 			m.assertProp(a[0], concStr(a[1]))
